@@ -502,7 +502,7 @@ def fam_c20(tier, seed):
         k += 1
     return scs
 
-def _full_head_storm(prop, k0, sizes=(60, 150)):
+def _full_head_storm(prop, k0, sizes=(60, 110)):
     """real sockets only: many connections that each send a COMPLETE request and are reset at once -- the server finds
     a complete head on a socket whose peer is already gone (nothing can be asked of that socket any more); outcomes
     differ from run to run (delivered or not), what is judged is that no thread panics and nothing is left behind"""
@@ -1185,7 +1185,10 @@ def fam_c16(tier, seed):
     # an invalid Content-Length stays invalid whatever else the request says (upgrade, close, Expect, HTTP/1.0)
     for tag, val in (("empty", ""), ("plus", "+5"), ("alpha", "abc"), ("list", "5, 5"), ("overflow", "9" * 25)):
         for xtag, extra, ver in (("upgrade", "Connection: upgrade\r\nUpgrade: x\r\n", "1.1"), ("upgrade-list", "Connection: keep-alive, Upgrade\r\nUpgrade: x\r\n", "1.1"),
-                                 ("close", "Connection: close\r\n", "1.1"), ("expect", "Expect: 100-continue\r\n", "1.1"), ("v10", "Connection: keep-alive\r\n", "1.0")):
+                                 ("close", "Connection: close\r\n", "1.1"), ("expect", "Expect: 100-continue\r\n", "1.1"), ("v10", "Connection: keep-alive\r\n", "1.0"),
+                                 # (a version the server does not speak: the request is refused for its framing all the same -- a 505 would
+                                 #  be followed by reading on)
+                                 ("v20", "", "2.0"), ("v30", "Connection: keep-alive\r\n", "3.0")):
             heads.append(("cl-%s+%s" % (tag, xtag), "POST @URL@ HTTP/%s\r\nHost: x\r\n%sContent-Length: %s\r\n\r\n" % (ver, extra, val), "bad-content-length"))
     for ws in (" ", "\t", "  \t "):
         heads.append(("ws-only-line-before-cl:%r" % ws, "POST @URL@ HTTP/1.1\r\nHost: x\r\n%s\r\nContent-Length: 5\r\n\r\n" % ws, "leading-ws"))
@@ -1247,7 +1250,11 @@ def fam_c16(tier, seed):
                 lines.append((clnames[i], "5" if c == "valid" else badval[c]))
         tag = "+".join(rec["hs"])
         if rec["cls"] == "r400":
-            raw = "POST @URL@ HTTP/1.1\r\nHost: x\r\n" + "".join("%s: %s\r\n" % nv for nv in lines) + "\r\n"
+            gver = "1.1"
+            if len(rec["hs"]) >= 2 and rng.random() < 0.3:
+                gver = rng.choice(["2.0", "3.0", "1.0"])
+                tag += "+v" + gver
+            raw = ("POST @URL@ HTTP/%s\r\nHost: x\r\n" % gver) + "".join("%s: %s\r\n" % nv for nv in lines) + "\r\n"
             for pos in (0, 1):
                 if pos == 1 and (tier == "quick" and rng.random() > 0.25):
                     continue
@@ -1366,6 +1373,18 @@ def fam_c18(tier, seed):
                     sc["tags"] = ["continue", "expect:%s" % exp, tag, pname, "pos:%d" % pos]
                     scs.append(sc)
                     k += 1
+    # the same for an HTTP/1.0 request (the statement makes no exception for it): with and without keep-alive
+    for n, pname, cn in itertools.product((0, 5, 1024, 3000), ("readall", "ask1", "noask", "partial"), ("keep-alive", None)):
+        m = Msg(method="POST", version="1.0", conn=cn, framing="cl", body_len=n, expect="100-continue" if n != 1024 else "100-Continue", plan=progs[pname](n))
+        msgs = [m] + ([Msg(version="1.0")] if cn else [])
+        d, j, ln = conn(msgs, 0)
+        me = d["msgs"][0]
+        if n > 0 and pname != "noask":
+            d["prog"] = [{"op": "send", "to": me["he"]}, {"op": "await", "frames": 1}, {"op": "send", "to": ln}]
+        sc = scenario("C18-%04d" % k, "C18", [(d, j, ln)], _single_app(), horizon_ms=100)
+        sc["tags"] = ["continue", "http/1.0", "len:%d" % n, pname, "conn:%s" % cn]
+        scs.append(sc)
+        k += 1
     # ONE application thread serves several Expect requests in a row (the usual worker loop) -- on one connection, or
     # on several: every one of them gets its interim response exactly once
     for lens in ((5, 5), (5, 1024, 5000), (0, 5, 0, 5), (2000, 3, 3, 3)):
@@ -1434,6 +1453,11 @@ def corpus(tier):
     c.append(("unread-chunked", lambda: [Msg(method="POST", framing="chunked", body_len=120, chunks=[50, 70], plan=respond(200, 3)), Msg()], b""))
     c.append(("partread-chunked", lambda: [Msg(method="POST", framing="chunked", body_len=90, chunks=[30], plan=_with_read(respond(200, 3), sizes=[10], upto=10)), Msg(), Msg()], b""))
     c.append(("dropped-chunked", lambda: [Msg(method="POST", framing="chunked", body_len=60, chunks=[60], plan=drop()), Msg()], b""))
+    # the body read with read_vectored / read_to_end (buffers that reach beyond the end of the body while the successor's
+    # bytes may or may not have arrived with its tail)
+    c.append(("post-2000-vectored", lambda: [Msg(method="POST", framing="cl", body_len=2000, plan=dict(respond(200, 3), read_std="vectored")), Msg()], b""))
+    c.append(("post-1300-read_to_end", lambda: [Msg(method="POST", framing="cl", body_len=1300, plan=dict(respond(200, 3), read_std="read_to_end")), Msg(), Msg()], b""))
+    c.append(("chunked-vectored", lambda: [Msg(method="POST", framing="chunked", body_len=700, chunks=[300, 400], plan=dict(respond(200, 3), read_std="vectored")), Msg()], b""))
     c.append(("head-close", lambda: [Msg(method="HEAD"), Msg(conn="close")], b""))
     c.append(("v10", lambda: [Msg(version="1.0", conn="keep-alive"), Msg(version="1.0")], b""))
     c.append(("bad-line", lambda: [Msg(), Msg(cls="r400", why="C10", raw_head=b"GET @URL@\r\n\r\n")], b""))
@@ -1498,7 +1522,7 @@ def fam_c15(tier, seed):
             continue
         d0, j0, ln = conn(mk(), 0)
         offs = list(range(0, ln + 1))
-        if tier == "quick" and len(offs) > 40:
+        if (tier == "quick" and len(offs) > 40) or len(offs) > 1600:
             structural = set([0, ln])
             for m in d0["msgs"]:
                 for o in (m["hs"], m["he"], m["be"]):
@@ -1539,7 +1563,7 @@ def fam_c15(tier, seed):
                     k += 1
     # real sockets only: a storm of connections that are reset at once (or after a few bytes) -- some of the resets
     # reach the server before it has accepted the connection -- and afterwards well-behaved clients, which must be served
-    for nstorm in (40, 120):
+    for nstorm in (40, 100):
         cc = []
         for c in range(nstorm):
             raw = [b"", b"GE", b"GET /x HTTP/1.1\r\nHo"][c % 3]
@@ -1887,6 +1911,18 @@ def fam_c14(tier, seed):
                 "version": b"GET @URL@ HTTP/1.%s\r\nHost: x\r\n\r\n", "name": b"GET @URL@ HTTP/1.1\r\nHo%sst: x\r\n\r\n",
                 "value": b"GET @URL@ HTTP/1.1\r\nHost: x%sy\r\n\r\n", "eol": b"GET @URL@ HTTP/1.1\r%s\nHost: x\r\n\r\n"}[pos]
         heads.append(("byte:%s:%02x" % (pos, byte[0]), base.replace(b"%s", byte), "any"))
+    # every version token the request line accepts or refuses, crossed with heads that are answered by the library itself
+    # (400 / 417 / 505 are printed for a request of THAT version) or by the application (respond / drop)
+    for ver in ("0.9", "1.0", "1.1", "1.2", "2.0", "3.0", "9.9", "0.0"):
+        for htag, hdrs in (("plain", "Host: x\r\n"), ("no-colon", "Host x\r\n"), ("cl-overflow", "Content-Length: 99999999999999999999999\r\n"),
+                           ("cl-alpha", "Content-Length: abc\r\n"), ("expect-unknown", "Expect: nonsense\r\n"), ("expect-100", "Expect: 100-continue\r\nContent-Length: 0\r\n"),
+                           ("ws-name", " Host: x\r\n"), ("te-weights", "TE: chunked;q=0.5, identity;q=NaN\r\n"), ("close", "Connection: close\r\n"),
+                           ("body", "Content-Length: 3\r\n\r\nabc"), ("chunked", "Transfer-Encoding: chunked\r\n\r\n3\r\nabc\r\n0\r\n")):
+            for meth in ("GET", "HEAD"):
+                tail = b"" if htag in ("body", "chunked") else b"\r\n"
+                if htag == "chunked":
+                    tail = b"\r\n"
+                heads.append(("version:%s:%s:%s" % (ver, htag, meth), ("%s @URL@ HTTP/%s\r\n%s" % (meth, ver, hdrs)).encode() + tail, "any"))
     # thousands of heads on one connection (every rejected or answered request must leave the thread's stack as it was)
     for tag, one in (("v2.0", b"GET /x HTTP/2.0\r\nHost: x\r\n\r\n"), ("v3.0-body", b"POST /x HTTP/3.0\r\nContent-Length: 2\r\n\r\nab"),
                      ("get", b"GET /c0m0 HTTP/1.1\r\nHost: x\r\n\r\n"), ("head", b"HEAD /c0m0 HTTP/1.1\r\nHost: x\r\n\r\n")):
